@@ -1072,7 +1072,7 @@ pub fn dispatch(hist: &History, obs: &Obs, scratch: &Scratch, budget: usize) -> 
 
 fn dispatch_inner(hist: &History, obs: &Obs, scratch: &Scratch, budget: usize) -> Verdict {
     match hist.cfg.hasher {
-        crate::reftrie::HasherKind::Blake3 => run_history::<crate::driver::B3>(hist, obs, scratch, budget),
+        crate::reftrie::HasherKind::Blake3 | crate::reftrie::HasherKind::TailLabel => run_history::<crate::driver::B3>(hist, obs, scratch, budget),
         crate::reftrie::HasherKind::Sha2 => run_history::<crate::driver::S2>(hist, obs, scratch, budget),
     }
 }
